@@ -57,7 +57,8 @@ Definition tok_eqb (a b : token) : bool :=
 Definition grant_eqb (a b : grant) : bool :=
   str_eqb (g_user a) (g_user b) && str_eqb (g_client a) (g_client b) && Bool.eqb (g_revoked a) (g_revoked b)
   && (g_exp a =? g_exp b) && strs_eqb (g_scope a) (g_scope b) && strs_eqb (g_areq_scope a) (g_areq_scope b)
-  && str_eqb (g_redirect a) (g_redirect b) && (g_valid_until a =? g_valid_until b).
+  && str_eqb (g_redirect a) (g_redirect b) && (g_valid_until a =? g_valid_until b)
+  && Bool.eqb (g_removed a) (g_removed b).
 
 (* what the harness reads off the real provider: the grants (in creation order) and, per grant, its
    issued_token list with the harness-assigned identifiers (minting order) *)
